@@ -5,7 +5,8 @@ import MindsVerif.Gen.SaTables
 
 Models: `Model/Fallback.lean` (`getExecParams`, `saRaises`, `clean`, `shaped`, `prepareCols`, `stripOutside`); tables and
 probed facts: `Gen/SaTables.lean`, regenerated from the live `mindsdb_sql.render.sqlalchemy_render` on every run
-(`tupleIsList`, `dupExc`, `pgKeepsLiteral` are PROBED behaviours: the model follows the code by itself).
+(`tupleIsList`, `dupExc`, `pgKeepsLiteral`, `funcGuard` and the table `funcPyAttrs` — what `getattr(sa.func, name)` yields for
+every attribute name of that Python object — are PROBED: the model follows the code by itself).
 
 Current state (the live tables `G`):
 
@@ -14,10 +15,12 @@ Current state (the live tables `G`):
   only the two caught classes AND (when it did raise) `str(ast)` does not raise; without fallback whatever is raised propagates.
 * **T17.2 own code** `C17_own_tables` (generic: locally `clean` ⇒ the first exception of the renderer's own code is none /
   SQLAlchemyError / NotImplementedError), `C17_repaired_clean` (Tuples are sqlalchemy tuples ∧ `RenderError` is caught ∧
-  parser-shape invariant `shaped` ⇒ `clean`), and for the LIVE tables `C17_review_live_tables` (`decide`d: both facts hold on
-  HEAD) hence `C17_review_live_own_tables`: on EVERY parser-shaped tree the renderer's own code raises at most the caught
+  python-attribute function names are refused ∧ parser-shape invariant `shaped` ⇒ `clean`), and for the LIVE tables
+  `C17_review_live_tables` (`decide`d: the three facts hold on HEAD) hence `C17_review_live_own_tables`: on EVERY parser-shaped tree the renderer's own code raises at most the caught
   classes.  Per-construct facts: `C17_cast_ok`, `C17_param_ok`, `C17_unop_iff`, `C17_table_position`, `C17_create_table_ok`,
-  `C17_insert_dup_iff`.
+  `C17_insert_dup_iff`, and for function names `C17_func_name_ok` (the lookup on `sa.func` raises only NotImplementedError, for
+  EVERY name), `C17_func_post_iff`, `C17_live_func_names` (the live table: `__repr__`, `__hash__`, `opts`, every `__x` refused;
+  `count`, `a_`, `_` are SQL functions).
 * **T17.3 mutation** `C17_no_mutation`: the column loop of `prepare_create_table` returns the caller's columns as they were
   (true by construction of the model; the content is the tie: the `create-table-columns` stream, the pinned absence of any
   attribute store / aliased container write on the tree — `pins.attrStores`, `pins.paramWrites` — and the snapshot probe).
@@ -28,7 +31,7 @@ Current state (the live tables `G`):
   no failure mode is left in the renderer's own code.  `C17_partial` / `C17_partial_repaired` are the generic versions
   (any tables).  `C17_full` (no hypotheses) is false: `C17_full_false`.
 * **History / regression theorems** (about the tables BEFORE the repairs, `Gold`): `C17_regression_tuple_operand`,
-  `C17_regression_insert_dup`, `C17_witness_pg_backtick` (old vs live scanner); `C17_fixed_*`, `C17_repaired_witnesses`: the
+  `C17_regression_insert_dup`, `C17_regression_func_pyattr`, `C17_witness_pg_backtick` (old vs live scanner); `C17_fixed_*`, `C17_repaired_witnesses`: the
   former witnesses on the live / repaired tables.
 * `pins`, `core_types`: what the hand model hard-codes about the source vs the regenerated data.
 -/
@@ -39,15 +42,17 @@ open MindsVerif.Fallback MindsVerif.Gen
 def G : Tables :=
   { typesMap := SaTables.typesMapKeys, methods := SaTables.methods, functions := SaTables.functionsKeys,
     opmap := SaTables.opmap, listOps := SaTables.listOps, textHas := SaTables.textHas,
-    tupleIsList := SaTables.tupleIsList, dupExc := excOfProbe SaTables.dupExc }
+    tupleIsList := SaTables.tupleIsList, dupExc := excOfProbe SaTables.dupExc,
+    funcPyAttrs := SaTables.funcPyAttrs, funcGuard := SaTables.funcGuard }
 
-/-- the tables with Tuples rendered as `sa.tuple_` and `RenderError` a SQLAlchemyError, whatever the probes say
+/-- the tables with Tuples rendered as `sa.tuple_`, `RenderError` a SQLAlchemyError and python-attribute function names
+refused, whatever the probes say
 (on HEAD `G` has exactly these facts: `C17_review_live_tables`) -/
-def Gr : Tables := { G with tupleIsList := false, dupExc := .sa }
+def Gr : Tables := { G with tupleIsList := false, dupExc := .sa, funcGuard := true }
 
-/-- the tables as they were BEFORE those two repairs (`to_expression(Tuple)` a Python list, `RenderError` a plain
-`Exception`): only used by the regression theorems -/
-def Gold : Tables := { G with tupleIsList := true, dupExc := .exception }
+/-- the tables as they were BEFORE those repairs (`to_expression(Tuple)` a Python list, `RenderError` a plain
+`Exception`, `getattr(sa.func, '__repr__')` called like a SQL function): only used by the regression theorems -/
+def Gold : Tables := { G with tupleIsList := true, dupExc := .exception, funcGuard := false }
 
 /-- what the hand model hard-codes about the source, pinned against the regenerated data -/
 theorem pins :
@@ -55,6 +60,7 @@ theorem pins :
     ∧ SaTables.attrStores = [("prepare_case", "type"), ("to_expression", "negate")]   -- `col.type` (since e7eccad) / `col.negate`: `col` is the SQLAlchemy element being built, not the tree
     ∧ (∀ x ∈ SaTables.joinLiterals, x ∈ joinTypes) ∧ (∀ x ∈ joinTypes, x ∈ SaTables.joinLiterals)
     ∧ SaTables.paramWrites = []
+    ∧ SaTables.funcDunderRule = true   -- the rule `funcClass` hard-codes for names that are not attributes of `sa.func`
     ∧ SaTables.typeRegexes = ["^INT[\\d]*$", "^FLOAT[\\d]*$"]
     ∧ SaTables.typeAssigns = ["typename = typename.upper()", "type = self.types_map[typename]", "typename = 'BIGINT'", "typename = 'FLOAT'"]
     ∧ SaTables.createTableLiterals = ["Create table without list of columns", "INT", "nullable", "primary_key", "serial", "server_default"]
@@ -184,6 +190,26 @@ theorem C17_insert_dup_iff (tb : Tables) (tbl : TblName) (cs : List String) (p h
     by_cases hn : n > 2 <;> cases hd : firstDup [] cs <;>
       simp [pre, isStructural, orElse, tableName, okExc, hd, hn, Exc.caught]
 
+/-- function names: the lookup `getattr(sa.func, name)` at the top of `to_function` raises nothing but
+NotImplementedError — for EVERY name and any tables (a missing attribute and, with the guard, a python attribute) -/
+theorem C17_func_name_ok (tb : Tables) (name : String) (d hf : Bool) (al : Al) (kids : List T) :
+    okExc (pre tb .expr (.func name d hf al) kids) = true := by
+  show okExc (if isStructural (.func name d hf al) then none else funcNameRaise tb name) = true
+  simp only [isStructural]
+  unfold funcNameRaise
+  cases funcClass tb name with
+  | gen => rfl
+  | missing => rfl
+  | pyattr => cases tb.funcGuard <;> rfl
+
+/-- … and with the guard (`funcGuard`, live: `C17_review_live_tables`) nothing leaks after the arguments either; without it a
+python attribute called with no argument leaks an AttributeError (`C17_regression_func_pyattr`) -/
+theorem C17_func_post_iff (tb : Tables) (name : String) (d hf : Bool) (al : Al) (kids : List T) :
+    okExc (post tb .expr (.func name d hf al) kids) = !(funcClass tb name == .pyattr && !tb.funcGuard && kids.isEmpty) := by
+  cases h : (funcClass tb name == .pyattr && !tb.funcGuard && kids.isEmpty) <;> cases al with
+  | none => simp [post, h, orElse, okExc, getAlias, Exc.caught]
+  | some n => by_cases hn : n > 1 <;> simp [post, h, orElse, okExc, getAlias, Exc.caught, hn]
+
 /-! ## T17.3 mutation -/
 
 /-- **T17.3**: the column loop of `prepare_create_table` leaves the caller's columns as they were — all
@@ -305,6 +331,25 @@ theorem C17_regression_tuple_operand :
     ∧ saRaises Gold false .stmt (sel [.mk .star []] (.mk .nil []) (.mk (.binop "in" none) [col "a", tup [.mk (.const none) []]])) = none := by
   decide
 
+/-- the live lookup table: every attribute name of the Python object `sa.func` (`__repr__`, `__hash__`, `__str__`, `opts`, …)
+and every other `__x` name is refused with NotImplementedError; ordinary names, names ending in `_` and `_` itself are SQL
+functions -/
+theorem C17_live_func_names :
+    (SaTables.funcPyAttrs.all fun p => funcNameRaise G p.1 == some .notImpl) = true
+    ∧ funcNameRaise G "__repr__" = some .notImpl ∧ funcNameRaise G "__hash__" = some .notImpl
+    ∧ funcNameRaise G "__str__" = some .notImpl ∧ funcNameRaise G "opts" = some .notImpl
+    ∧ funcNameRaise G "__a__" = some .notImpl ∧ funcNameRaise G "__" = some .notImpl
+    ∧ funcNameRaise G "count" = none ∧ funcNameRaise G "a_" = none ∧ funcNameRaise G "_" = none ∧ funcNameRaise G "class" = none
+    ∧ saRaises G false .stmt (sel [.mk (.func "__repr__" false false none) []]) = some .notImpl := by decide
+
+/-- REGRESSION (old tables `Gold`: no guard on python-attribute names): `select __repr__()` / `select __hash__()` leaked an
+AttributeError (`'str' object has no attribute 'label'`) through the fallback; with an argument the TypeError was translated -/
+theorem C17_regression_func_pyattr :
+    saRaises Gold false .stmt (sel [.mk (.func "__repr__" false false none) []]) = some .attr
+    ∧ saRaises Gold false .stmt (sel [.mk (.func "__hash__" false false none) []]) = some .attr
+    ∧ saRaises Gold false .stmt (sel [.mk (.func "__a__" false false none) []]) = some .notImpl
+    ∧ clean Gold false .stmt (sel [.mk (.func "__repr__" false false none) []]) = false := by decide
+
 /-- REGRESSION (old tables `Gold`: `RenderError` a plain `Exception`): `insert into t (a, a) values (1, 2)` → RenderError,
 which went through the fallback -/
 theorem C17_regression_insert_dup :
@@ -348,21 +393,22 @@ parser-shaped tree is clean — for all trees, contexts, tables.  `shaped` is an
 receiver of an operator, `f(DISTINCT)` has an argument, NativeQuery aliases have a part, `prepare_select` only gets
 Select / Union): it is evaluated by the driver on every parsed tree of the streams. -/
 theorem C17_repaired_clean (tb : Tables) (w : Bool) (c : Ctx) (t : T) (h1 : tb.tupleIsList = false)
-    (h2 : tb.dupExc.caught = true) (hs : shaped tb w c t = true) : clean tb w c t = true :=
-  shaped_clean tb w h1 h2 c t hs
+    (h2 : tb.dupExc.caught = true) (h3 : tb.funcGuard = true) (hs : shaped tb w c t = true) : clean tb w c t = true :=
+  shaped_clean tb w h1 h2 h3 c t hs
 
 /-- … hence the renderer's own code raises only the caught classes … -/
 theorem C17_repaired_own_tables (tb : Tables) (w : Bool) (c : Ctx) (t : T) (h1 : tb.tupleIsList = false)
-    (h2 : tb.dupExc.caught = true) (hs : shaped tb w c t = true) :
+    (h2 : tb.dupExc.caught = true) (h3 : tb.funcGuard = true) (hs : shaped tb w c t = true) :
     saRaises tb w c t = none ∨ saRaises tb w c t = some .sa ∨ saRaises tb w c t = some .notImpl :=
-  C17_own_tables tb w c t (shaped_clean tb w h1 h2 c t hs)
+  C17_own_tables tb w c t (shaped_clean tb w h1 h2 h3 c t hs)
 
 /-- … and the contract holds for every parser-shaped tree under the two behavioural hypotheses only -/
 theorem C17_partial_repaired {ρ : Type} (tb : Tables) (w : Bool) (t : T) (saPart : Outcome ρ) (printer : Outcome String)
-    (dn : String) (h1 : tb.tupleIsList = false) (h2 : tb.dupExc.caught = true) (hs : shaped tb w .stmt t = true)
+    (dn : String) (h1 : tb.tupleIsList = false) (h2 : tb.dupExc.caught = true) (h3 : tb.funcGuard = true)
+    (hs : shaped tb w .stmt t = true)
     (hsa : saQuiet saPart = true) (hpr : printerTotal printer = true) :
     Honours tb w t saPart printer dn :=
-  C17_partial tb w t saPart printer dn (shaped_clean tb w h1 h2 .stmt t hs) hsa hpr
+  C17_partial tb w t saPart printer dn (shaped_clean tb w h1 h2 h3 .stmt t hs) hsa hpr
 
 /-- the former witnesses on the repaired tables `Gr` -/
 theorem C17_repaired_witnesses :
@@ -370,7 +416,7 @@ theorem C17_repaired_witnesses :
     ∧ clean Gr false .stmt (sel [.mk (.binop "+" none) [tup [col "a", col "b"], .mk (.const none) []]]) = true
     ∧ clean Gr false .stmt (sel [.mk (.binop "like" none) [tup [col "a"], col "c"]]) = true
     ∧ saRaises Gr false .stmt (.mk (.insert (.ident 1) (some ["a", "a"]) false true) [.mk .grp [.mk (.const none) [], .mk (.const none) []]]) = some .sa
-    ∧ Gr.tupleIsList = false ∧ Gr.dupExc.caught = true := by decide
+    ∧ Gr.tupleIsList = false ∧ Gr.dupExc.caught = true ∧ Gr.funcGuard = true := by decide
 
 /-! ### the live tables (reviewer's theorems, promoted)
 
@@ -379,7 +425,7 @@ of `C17_partial` is replaced, for the LIVE tables `G`, by the parser-shape invar
 if the code regresses. -/
 
 -- [review]
-theorem C17_review_live_tables : G.tupleIsList = false ∧ G.dupExc.caught = true := by decide
+theorem C17_review_live_tables : G.tupleIsList = false ∧ G.dupExc.caught = true ∧ G.funcGuard = true := by decide
 
 -- [review] the live tables are not the old ones
 example : ¬ (SaTables.tupleIsList = true) := by decide
@@ -388,13 +434,13 @@ example : ¬ (SaTables.dupExc = "exception") := by decide
 /-- [review] **T17.2 for the live tables**: the renderer's own code raises at most the caught classes on EVERY parser-shaped tree -/
 theorem C17_review_live_own_tables (w : Bool) (c : Ctx) (t : T) (hs : shaped G w c t = true) :
     saRaises G w c t = none ∨ saRaises G w c t = some .sa ∨ saRaises G w c t = some .notImpl :=
-  C17_repaired_own_tables G w c t C17_review_live_tables.1 C17_review_live_tables.2 hs
+  C17_repaired_own_tables G w c t C17_review_live_tables.1 C17_review_live_tables.2.1 C17_review_live_tables.2.2 hs
 
 /-- [review] **C17 (partial) for the live tables** without `clean`: only the shape invariant and the two behavioural hypotheses -/
 theorem C17_review_live {ρ : Type} (w : Bool) (t : T) (saPart : Outcome ρ) (printer : Outcome String)
     (dn : String) (hs : shaped G w .stmt t = true) (hsa : saQuiet saPart = true)
     (hpr : printerTotal printer = true) : Honours G w t saPart printer dn :=
-  C17_partial_repaired G w t saPart printer dn C17_review_live_tables.1 C17_review_live_tables.2 hs hsa hpr
+  C17_partial_repaired G w t saPart printer dn C17_review_live_tables.1 C17_review_live_tables.2.1 C17_review_live_tables.2.2 hs hsa hpr
 
 /-- **exactness**: on a locally clean tree (in particular: on every parser-shaped tree of the live tables) the call WITH
 fallback raises if and only if SQLAlchemy's own part raised an uncaught class, or the rendering raised a caught class and the
@@ -422,21 +468,22 @@ theorem C17_live_exact {ρ : Type} (w : Bool) (t : T) (saPart : Outcome ρ) (pri
     (getExecParams (innerOf G w t saPart) printer true dn SaTables.pgKeepsLiteral).isRaised = true ↔
       ((saRaises G w .stmt t = none ∧ saQuiet saPart = false)
         ∨ ((match innerOf G w t saPart with | .raise e => e.caught | .ret _ => false) = true ∧ printerTotal printer = false)) :=
-  C17_exact G w t saPart printer dn _ (shaped_clean G w C17_review_live_tables.1 C17_review_live_tables.2 .stmt t hs)
+  C17_exact G w t saPart printer dn _
+    (shaped_clean G w C17_review_live_tables.1 C17_review_live_tables.2.1 C17_review_live_tables.2.2 .stmt t hs)
 
 -- [review] non-vacuity on the live tables: `select (a, b) + f(distinct a) from t join (native query)`
-example : shaped G false .stmt (sel [.mk (.binop "+" none) [tup [col "a", col "b"], .mk (.func true false none) [col "a"]]]
+example : shaped G false .stmt (sel [.mk (.binop "+" none) [tup [col "a", col "b"], .mk (.func "count" true false none) [col "a"]]]
     (.mk (.join false "JOIN") [.mk (.ident 1 "t" none) [], .mk (.nativeQuery (some 1)) [], .mk .nil []])) = true := by decide
 
 /-- `shaped` is not vacuous, and it is needed: a Star as the receiver of an operator is an AttributeError -/
-example : shaped Gr false .stmt (sel [.mk (.binop "+" none) [tup [col "a", col "b"], .mk (.func true false none) [col "a"]]]
+example : shaped Gr false .stmt (sel [.mk (.binop "+" none) [tup [col "a", col "b"], .mk (.func "count" true false none) [col "a"]]]
     (.mk (.join false "JOIN") [.mk (.ident 1 "t" none) [], .mk (.nativeQuery (some 1)) [], .mk .nil []])) = true := by decide
 example : shaped Gr false .stmt (sel [.mk (.binop "+" none) [.mk .star [], col "a"]]) = false
     ∧ saRaises Gr false .stmt (sel [.mk (.binop "+" none) [.mk .star [], col "a"]]) = some .attr := by decide
 
 /-! ## non-vacuity of the hypotheses of `C17_partial` -/
 
-example : clean G false .stmt (sel [.mk (.cast "int8" none) [col "a"], .mk (.func false false none) [col "a", col "b"]]
+example : clean G false .stmt (sel [.mk (.cast "int8" none) [col "a"], .mk (.func "f" false false none) [col "a", col "b"]]
     (.mk (.ident 2 "db" none) []) (.mk (.binop "in" none) [col "a", tup [.mk (.const none) []]])) = true := by decide
 example : clean G true .stmt (.mk (.createTable (.ident 2) (some [⟨some "serial", false⟩, ⟨some "Varchar", false⟩, ⟨some "foo", false⟩])) []) = true := by decide
 example : clean G false .stmt (sel [.mk (.cast "foo" none) [.mk (.param true) []]]) = true := by decide
